@@ -1,7 +1,7 @@
 #!/venv/bin/python
 """tools/try_mutant.py <PID> <k> [--checks C05,C04] [--tier quick] [--wt /tmp/wt/PID] [--skip-suite]
 Confirms a seeded change (patch applies alone, full suite passes with it, demo fails with / passes without),
-stores it under /verif/seeded/<PID>-<k>/ and runs the registered check(s) against it on /repo (applied, then reverted)."""
+stores it under /verif/seeded/<PID>-<k>/ and runs the registered check(s) against it in the seed's worktree (VERIF_REPO=<worktree>; /repo is not touched)."""
 import json
 import os
 import shutil
@@ -71,20 +71,20 @@ def main():
     if os.path.exists(notes):
         shutil.copy(notes, os.path.join(dest, "notes.md"))
         meta["needs"] = open(notes).read()[:1500]
-    # run checks on /repo with the patch applied
-    rc, out = sh("git status --short --untracked-files=no", cwd="/repo")
-    if out.strip():
-        print("/repo not clean, refusing", out)
-        return 2
-    rc, out = sh("git apply %s" % os.path.join(dest, "patch.diff"), cwd="/repo")
+    # run the checks against the seed's own worktree with the patch applied (VERIF_REPO); /repo is never touched
+    rc, out = sh("git apply %s" % os.path.join(dest, "patch.diff"), cwd=wt)
     if rc != 0:
-        print("cannot apply to /repo", out)
+        print("cannot re-apply", out)
         return 2
     results = {}
+    env = dict(os.environ, VERIF_REPO=wt)
+    env.pop("VERIF_CTRAITS_SO", None)
     try:
         for c in checks:
             t0 = time.time()
-            rc, out = sh("./check %s %s" % (c, tier), cwd=VERIF, timeout=7200)
+            p = subprocess.run("./check %s %s" % (c, tier), shell=True, cwd=VERIF, env=env, stdout=subprocess.PIPE,
+                               stderr=subprocess.STDOUT, text=True, timeout=7200)
+            rc, out = p.returncode, p.stdout
             det = rc == 1 and "VIOLATION property=%s" % c in out
             results[c] = {"exit": rc, "detected": det, "wall_s": round(time.time() - t0, 1),
                           "first_violation": next((l for l in out.splitlines() if l.startswith("  ")), "")[:400]}
@@ -92,7 +92,8 @@ def main():
             if not det:
                 print(out[-1500:])
     finally:
-        sh("git checkout -- .", cwd="/repo")
+        sh("git checkout -- .", cwd=wt)
+        shutil.rmtree(os.path.join(wt, ".verif_out"), ignore_errors=True)
     meta["checks"] = results
     meta["detected_by"] = [c for c, r in results.items() if r["detected"]]
     json.dump(meta, open(os.path.join(dest, "meta.json"), "w"), indent=1)
